@@ -211,6 +211,16 @@ impl Expr {
         self.for_type(flags).map(|_| self)
     }
 
+    /// The variable an index / member-access expression is rooted at, if it starts at one.
+    fn root_ident(&self) -> Option<&super::Ident> {
+        match self {
+            Expr::Value(Value::Ident(ident)) => Some(ident),
+            Expr::Index { lhs_raw, .. } => lhs_raw.root_ident(),
+            Expr::DotLookup { lhs, .. } => lhs.root_ident(),
+            _ => None,
+        }
+    }
+
     pub(crate) fn parse(input: Node) -> Result<Expr, Vec<anyhow::Error>> {
         let children_as_pairs = input.children().into_pairs();
         parse_expr(children_as_pairs, input.user_data().clone())
@@ -234,8 +244,18 @@ impl Expr {
                             }
                             Cow::Owned(lhs.for_type(flags)?)
                         }
-                        index @ Expr::Index { .. } => Cow::Owned(index.for_type(flags)?),
-                        Expr::DotLookup { expected_type, .. } => Cow::Borrowed(expected_type),
+                        index @ Expr::Index { .. } => {
+                            if let Some(root) = index.root_ident().filter(|root| root.is_const()) {
+                                bail!("cannot use {op} on an element of {}, which is const", root.name())
+                            }
+                            Cow::Owned(index.for_type(flags)?)
+                        }
+                        lookup @ Expr::DotLookup { expected_type, .. } => {
+                            if let Some(root) = lookup.root_ident().filter(|root| root.is_const()) {
+                                bail!("cannot use {op} on a member of {}, which is const", root.name())
+                            }
+                            Cow::Borrowed(expected_type)
+                        }
                         _ => bail!("invalid left operand for {op} (cannot apply to {})", lhs.for_type(flags)?),
                     }
                 } else {
